@@ -3148,6 +3148,18 @@ func ruleOneClockReading(w *World, r *Report, rule string, entries ...string) {
 				}
 			}
 		}
+		direct := ""
+		for _, g := range scope {
+			for _, c := range callsIn(g) {
+				if isCallToPkgFunc(c, "time", "Now") {
+					direct = w.instrPos(c)
+				}
+			}
+		}
+		if direct != "" {
+			r.Violate(rule, name+":one-clock-reading", w.pos(f.Pos()), name+" reads time.Now directly at "+direct+" instead of the package's clock (the variable Now): this entry point no longer follows a replaced clock while the others do")
+			continue
+		}
 		r.Check(len(sites) == 1, rule, name+":one-clock-reading", w.pos(f.Pos()), "the clock is read at one place ("+strings.Join(sites, ", ")+")", fmt.Sprintf("%s reads the clock at %d places (%s): when a retention boundary passes between two readings the archive is chosen for one instant and the window tested and clamped for another", name, len(sites), strings.Join(sites, ", ")))
 	}
 }
@@ -3244,4 +3256,100 @@ func ruleParseWindowCheck(w *World, r *Report, rule, cmdType string) {
 		}
 	}
 	r.Check(bad == "", rule, cmdType+".Parse:window-check", w.pos(f.Pos()), fmt.Sprintf("%d refusals compare From with Until, each only when Until was given", n), cmdType+".Parse: "+bad+": the command body reads Until == 0 as `until now`, so the window `-from T` alone — which it would serve — is turned away and the command does none of its work")
+}
+
+// ruleLoopBodyAlwaysCalls: the call sits in a loop and every pass through the loop body performs it — there is no way
+// from the body's entry back to the loop header (or out of the loop other than by a failing return) that avoids it.
+func ruleLoopBodyAlwaysCalls(w *World, r *Report, rule, key string, call ssa.Instruction, why string) {
+	if call == nil {
+		r.Undecided(rule, key, "-", "the per-element call was not found")
+		return
+	}
+	var header *ssa.BasicBlock
+	for b := call.Block(); b != nil; b = b.Idom() {
+		if isLoopHeader(b) {
+			header = b
+			break
+		}
+	}
+	if header == nil {
+		r.Violate(rule, key, w.instrPos(call), "the per-element call is not inside a loop: "+why)
+		return
+	}
+	// the body entry: the successor of the header from which the call is reachable
+	bad := ""
+	for _, s := range header.Succs {
+		if s != call.Block() && !blockReachesAvoiding(s, call.Block(), header) {
+			continue // the exit side
+		}
+		if s == call.Block() {
+			continue
+		}
+		// can the header be reached again from s without passing the call's block?
+		seen := map[*ssa.BasicBlock]bool{call.Block(): true}
+		var walk func(b *ssa.BasicBlock) bool
+		walk = func(b *ssa.BasicBlock) bool {
+			if b == header {
+				return true
+			}
+			if seen[b] {
+				return false
+			}
+			seen[b] = true
+			for _, n := range b.Succs {
+				if walk(n) {
+					return true
+				}
+			}
+			return false
+		}
+		if walk(s) {
+			bad = "an element can be passed over: from " + w.blockPos(s) + " the loop goes on to the next element without the call"
+		}
+	}
+	r.Check(bad == "", rule, key, w.instrPos(call), "every pass through the loop body performs the call", bad+": "+why)
+}
+
+// ruleParseFloatWidth: a number parsed for a float32 option is parsed as a float32 (bitSize 32): parsing it as a float64
+// and narrowing rounds twice, so decimals next to a float32 rounding boundary land on the wrong neighbour.
+func ruleParseFloatWidth(w *World, r *Report, rule string) {
+	n := 0
+	bad := ""
+	for _, f := range w.modFuncs {
+		if !w.inModule(f) {
+			continue
+		}
+		for _, c := range callsIn(f) {
+			if !isCallToPkgFunc(c, "strconv", "ParseFloat") || len(c.Common().Args) != 2 {
+				continue
+			}
+			cv, ok := c.(*ssa.Call)
+			if !ok {
+				continue
+			}
+			// is result #0 converted to float32?
+			to32 := false
+			for _, ref := range *cv.Referrers() {
+				ex, isEx := ref.(*ssa.Extract)
+				if !isEx || ex.Index != 0 {
+					continue
+				}
+				for _, r2 := range *ex.Referrers() {
+					if conv, isC := r2.(*ssa.Convert); isC {
+						if bt, isB := conv.Type().Underlying().(*types.Basic); isB && bt.Kind() == types.Float32 {
+							to32 = true
+						}
+					}
+				}
+			}
+			if !to32 {
+				continue
+			}
+			n++
+			if k, isK := constInt(c.Common().Args[1]); (!isK || k != 32) && bad == "" {
+				bad = "the number stored as a float32 is parsed at " + w.instrPos(c) + " with another bit size than 32"
+			}
+		}
+	}
+	r.Check(bad == "" && n > 0, rule, "strconv.ParseFloat:width-of-the-option", "cmd/flags.go", fmt.Sprintf("%d float32 options, each parsed with bitSize 32", n), bad+": the value is rounded twice and the file gets another xFilesFactor than the one requested")
 }
